@@ -189,9 +189,9 @@ FAMILIES = {
                  confirms=["flag"], mnames=["INBOX", "A", "B"], addflags=[[]], preset="msgs", maxsteps=3),
 }
 QUICK_PER_FAMILY = 12
-THOROUGH_FAMILY_CAP = 700
+THOROUGH_FAMILY_CAP = 350
 QUICK_SIM = 30
-THOROUGH_SIM = 900
+THOROUGH_SIM = 500
 
 SIMS = {
     "sim-empty": dict(kinds=CREDS + ACCT + MBOX + MSGS + ["Deliver"], spell=["a", "aC", "aW", "b"], pws=["p1", "p2"],
@@ -402,8 +402,19 @@ def run(ctx, replay):
             events = events + c1 + c2
             selftest = {900001: "corrupt-field", 900002: "drop-event"}
 
-    verdicts, by_t = ctx.validate("AcctMgmtTrace", None, events,
-                                  cfg_text=cfg(devs=devs_open, tail=TRACE_TAIL, spec="TSpec", **TRACE), batch=400)
+    # trace validation, several TLC runs side by side (each over whole traces)
+    ts = sorted(set(e["t"] for e in events))
+    nchunk = max(1, min(6, len(ts) // 150))
+    part = {t: i % nchunk for i, t in enumerate(ts)}
+    chunks = [[e for e in events if part[e["t"]] == k] for k in range(nchunk)]
+    tcfg = cfg(devs=devs_open, tail=TRACE_TAIL, spec="TSpec", **TRACE)
+    with ThreadPoolExecutor(max_workers=nchunk) as ex:
+        outs = list(ex.map(lambda k: ctx.validate("AcctMgmtTrace", None, chunks[k], name="val%d" % k, cfg_text=tcfg,
+                                                  batch=300, timeout=2400), range(nchunk)))
+    verdicts, by_t = {}, {}
+    for v, bt in outs:
+        verdicts.update(v)
+        by_t.update(bt)
 
     ok = drift = nfind = 0
     preds = {}
